@@ -264,4 +264,6 @@ func init() {
 		"	if fulfilled {\n		s.cycle.counter = 0\n	}", "	if fulfilled && res.Command == CommandCommit {\n		s.cycle.counter = 0\n	}", "C07.R2.sync")
 	mut("C15", "a repeated name is refused only when existing channels are not skipped", "core/pkg/distribution/channel/lease_proxy.go",
 		"		if namesSeen.Contains(name) {", "		if namesSeen.Contains(name) && !skipExisting {", "C15.R5.names")
+	mut("C15", "a virtual channel may reuse the key of an existing unary channel", "cesium/channel.go",
+		"	if unaryExists || virtualExists {", "	if (unaryExists && !ch.Virtual) || virtualExists {", "C15.R6.newkey")
 }
